@@ -344,6 +344,10 @@ def run_paths(fn, P=None, limit=4096, start=None, stops=None):
             color[u] = 2
             stack.pop()
 
+    loop_no = {}
+    for n_, l_ in enumerate(sorted([x for x in fn.walk() if fn.k(x) in ("For", "While", "Do")], key=lambda x: (fn.line(x), x))):
+        loop_no[l_] = n_ + 1
+
     def havoc(p, b):
         from . import paths as _paths
         ln = headers[b]
@@ -351,7 +355,7 @@ def run_paths(fn, P=None, limit=4096, start=None, stops=None):
         for s_ in _paths.stores(fn, ln):
             nm = s_["path"]
             if all(ch.isalnum() or ch == "_" for ch in nm):
-                p.env[nm] = lin.p_atom("%s@%d" % (nm, fn.line(ln)))
+                p.env[nm] = lin.p_atom("%s@L%d" % (nm, loop_no[ln]))
             else:
                 mem = True
         for v_ in fn.find("Var", root=ln):
@@ -393,9 +397,30 @@ def run_paths(fn, P=None, limit=4096, start=None, stops=None):
                 raise AnalysisIncomplete("too many paths in %s" % fn.name)
             return
         if b in p.blocks:
-            if b in headers:
-                return          # further iterations are covered by the havoc at the first visit
-            raise AnalysisIncomplete("%s: irreducible flow" % fn.name)
+            if b not in headers:
+                raise AnalysisIncomplete("%s: irreducible flow" % fn.name)
+            # back at the header after one trip through the body: forget what the loop writes once more
+            # and leave through the exit edge (paths with no and with one iteration, each with the
+            # unknown state of "some iterations" before and after)
+            if p.blocks.count(b) > 1 or fn.nodes[headers[b]]["k"] == "Do":
+                return
+            havoc(p, b)
+            p.blocks.append(b)
+            step(p, b)
+            conds = {}
+            for (s0, d0, c, pol) in cfg.cond_edges():
+                if s0 == b:
+                    conds[pol] = (d0, c)
+            if False not in conds:
+                return
+            d0, c = conds[False]
+            key, kpol, decided = ev.cond_key(p, c, False)
+            if decided is False:
+                return
+            if key is not None:
+                p.atoms[key] = kpol
+            go(p, d0)
+            return
         if b in headers:
             havoc(p, b)
         p.blocks.append(b)
